@@ -69,6 +69,7 @@ class Oracle(object):
         self.max_faults = max_faults
         self.nfault = 0
         self.fault_kinds = 4
+        self.fault_filter = None     # optional predicate(individual): may this call fail?
 
     def _congruent(self, prev_calls, vec, vals):
         ctx = self.ctx
@@ -83,7 +84,8 @@ class Oracle(object):
         vec = list(individual.vector)
         j = len(self.calls)
         fault = 'ok'
-        if self.faults and (self.max_faults is None or self.nfault < self.max_faults):
+        if self.faults and (self.max_faults is None or self.nfault < self.max_faults) and (
+                self.fault_filter is None or self.fault_filter(individual)):
             fault = FAULTS[ctx.choice('fault_call%d' % j, self.fault_kinds)]
         if fault != 'ok':
             self.nfault += 1
